@@ -4,6 +4,7 @@ use serde_json::Value;
 
 use crate::report::{CheckInfo, Partial, Tier, Violation};
 
+pub mod c02;
 pub mod c07;
 pub mod c08;
 pub mod c09;
@@ -26,6 +27,7 @@ pub struct CheckDef {
 
 pub fn all() -> Vec<CheckDef> {
     vec![
+        c02::def(),
         srvchecks::def_c03(),
         srvchecks::def_c04(),
         c07::def(),
